@@ -66,6 +66,8 @@ fn kv_step_f64_immediate(duration: Duration) {
 		assert!(p.stagnant);
 		match p.state { State::Idle { value: Value::Fixed(v) } => assert!(v.to_bits() == target.to_bits()), _ => assert!(false, "state is Idle(target) after the tween") }
 	} else {
+		// (natively the real kernel and the real Tween::value run, so the same expression is the
+		// reference value start + (target-start) * (t2/duration))
 		let want = <f64 as Tweenable>::interpolate(start, target, Tween { start_time: StartTime::Immediate, duration, easing: Easing::Linear }.value(t2));
 		assert!(p.value().to_bits() == want.to_bits(), "value == interpolate(start, target, ease(elapsed/duration))");
 		assert!(!p.stagnant);
@@ -364,6 +366,7 @@ fn kv_tween_value_body(duration: Duration) {
 	let tw = Tween { start_time: StartTime::Immediate, duration, easing: kv_easing(sel, pi, pf) };
 	let v = tw.value(time);
 	let d = duration.as_secs_f64();
+	if cfg!(kv_native) { let want = tw.easing.apply(time / d); assert!(v.to_bits() == want.to_bits() || (v.is_nan() && want.is_nan()), "native: Tween::value == ease(time/duration)"); return; }
 	unsafe {
 		assert!(KV_EA_CALLS == 1 && KV_EA_E == tw.easing, "the tween's own easing is applied exactly once");
 		assert!(v.to_bits() == KV_EA_R.to_bits(), "Tween::value returns the eased progress");
